@@ -79,8 +79,10 @@ theorem objects_order_tie : NV.Gen.C08.objectsOrder = expectedObjectsOrder ∧
     the source has; this obligation records the ones the property was checked against) -/
 theorem hb_ops_tie : NV.Gen.C08.hbIdxOp = "<=" ∧ NV.Gen.C08.hbTodoOp = "<" := by decide
 
-/-- prefix lengths of the two hash functions (`hashN`, `lhash` use the generated values) -/
-theorem hash_prefix_tie : NV.Gen.C08.objHashPrefix = 40 ∧ NV.Gen.C08.livingHashPrefix = 20 := by decide
+/-- prefix lengths of the two hash functions: `hashN` / `lhash` use the generated values, so another length is followed
+    by the model (harmless); a zero length would hash every name to one bucket -/
+theorem hash_prefix_tie : 0 < NV.Gen.C08.objHashPrefix ∧ 0 < NV.Gen.C08.livingHashPrefix ∧
+    0 < NV.Gen.C08.livingHashSize ∧ 0 < NV.Gen.C08.otSize ∧ 0 < NV.Gen.C08.inheritChainSize := by decide
 
 /-- add_action: `nearCg` mirrors the four pointer comparisons, the giver test precedes it (`.aa`) -/
 theorem add_action_cond_tie :
@@ -101,7 +103,23 @@ theorem move_cond_tie : NV.Gen.C08.moveCycleTest = "ob == item" ∧
 theorem destruct_cond_tie : NV.Gen.C08.destructRestrictCond = "restrict_destruct && restrict_destruct != ob" ∧
     NV.Gen.C08.destructNestedCond = "otmp == ob->contains" := by decide
 
-/-- the flag bits the walker of the harness tests are the ones of lpc/object.h -/
-theorem flag_bits_tie : NV.Gen.C08.oDestructed = 16 ∧ NV.Gen.C08.oEnableCommands = 4 ∧ NV.Gen.C08.oClone = 8 := by decide
+/-- load_object's inherit detour (`Task.load`, case `.ih`): depth guard first; the inherited program is looked up and, on
+    a miss, loaded; then the object's own name is looked up AGAIN (by `name`, the table key) and only on a miss loaded
+    again; only the compiled path allocates -/
+def expectedInheritOrder : List String :=
+  ["depth-guard", "self-inherit-error", "lookup-inherited", "load-inherited", "missing-inherited-error",
+   "relookup-self", "reload-self", "alloc"]
+
+theorem inherit_order_tie : NV.Gen.C08.inheritOrder = expectedInheritOrder ∧
+    NV.Gen.C08.loadRelookupCond = "!(ob = lookup_object_hash (name))" ∧
+    NV.Gen.C08.loadDepthCond = "++num_objects_this_thread > CONFIG_INT (__INHERIT_CHAIN_SIZE__)" := by decide
+
+/-- the three flags the model keeps as separate booleans (`destructed`, `ec`, `clone`) are separate non-zero bits of
+    `object_t.flags` (lpc/object.h; the walker of the harness tests them through the same macros).  Stated relative to
+    the regenerated values: a renumbering of the flag word is harmless and does not break this obligation, two flags
+    sharing a bit does. -/
+theorem flag_bits_tie : NV.Gen.C08.oDestructed ≠ 0 ∧ NV.Gen.C08.oEnableCommands ≠ 0 ∧ NV.Gen.C08.oClone ≠ 0 ∧
+    NV.Gen.C08.oDestructed &&& NV.Gen.C08.oEnableCommands = 0 ∧ NV.Gen.C08.oDestructed &&& NV.Gen.C08.oClone = 0 ∧
+    NV.Gen.C08.oEnableCommands &&& NV.Gen.C08.oClone = 0 := by decide
 
 end NV.C08
